@@ -25,7 +25,7 @@ for pid in ids:
     })
 man = {
     "version": 1,
-    "setup_cmd": "cd /verif/harness && export CARGO_NET_OFFLINE=true && cargo build --release --offline && cargo build --profile relfast --offline && (RUSTFLAGS='-Zsanitizer=address -Cforce-frame-pointers=yes' cargo +nightly build --release --offline --target x86_64-unknown-linux-gnu --target-dir target-asan || true) && (MIRIFLAGS=-Zmiri-disable-isolation CARGO_TARGET_DIR=target-miri cargo +nightly miri run --release -- merge-fp || true)",
+    "setup_cmd": "cd /verif/harness && export CARGO_NET_OFFLINE=true && cargo build --release --offline && cargo build --profile relfast --offline && cargo build --offline && (RUSTFLAGS='-Zsanitizer=address -Cforce-frame-pointers=yes' cargo +nightly build --release --offline --target x86_64-unknown-linux-gnu --target-dir target-asan || true) && (MIRIFLAGS=-Zmiri-disable-isolation CARGO_TARGET_DIR=target-miri cargo +nightly miri run --release -- merge-fp || true)",
     "hooks": {
         "guard": "cargo feature verif_hooks (micro_http/Cargo.toml [features])",
         "enable": "the harness crate depends on micro_http = { path = \"/repo\", features = [\"verif_hooks\"] }",
